@@ -13,6 +13,22 @@ import (
 type executionContext struct {
 	commander  *Commander
 	parameters Parameters
+	// completions run, last registered first, once the request is over: after its log entry has been
+	// persisted, or as soon as it fails
+	completions []func()
+}
+
+// onCompletion registers what must only be released once the write is durable (account locks,
+// reservations): until then the store does not show the write to competing requests.
+func (e *executionContext) onCompletion(f func()) {
+	e.completions = append(e.completions, f)
+}
+
+func (e *executionContext) complete() {
+	for i := len(e.completions) - 1; i >= 0; i-- {
+		e.completions[i]()
+	}
+	e.completions = nil
 }
 
 func (e *executionContext) AppendLog(ctx context.Context, log *ledger.Log) (*ledger.ChainedLog, chan struct{}, error) {
@@ -36,6 +52,7 @@ func (e *executionContext) AppendLog(ctx context.Context, log *ledger.Log) (*led
 }
 
 func (e *executionContext) run(ctx context.Context, executor func(e *executionContext) (*ledger.ChainedLog, chan struct{}, error)) (*ledger.ChainedLog, error) {
+	defer e.complete()
 	if ik := e.parameters.IdempotencyKey; ik != "" {
 		if err := e.commander.referencer.take(referenceIks, ik); err != nil {
 			verifhook.Yield(ctx, "ik.busy", "ik", ik)
